@@ -125,6 +125,10 @@ package logqlmetric
 //@   loop 0 body_ensures[point-is-the-sample]        g_called ==> same(i.window[k_r0].Data[len(i.window[k_r0].Data)-1], FPoint{Timestamp: e.Timestamp, Value: e.Sample})
 //@   loop 0 body_ensures[labels-kept-at-first-sight] g_called && !head(has(i.window, k_r0)) ==> i.window[k_r0].Set == g_r0
 //@   loop 0 exit_ensures[stops-at-end-or-exhausted]  (nx_called && !nx_r0) || e.Timestamp.AsTime().After(windowEnd)
+// Progress (C17): an iteration that goes round again has taken a record from the source or has
+// used up the one buffered record, and does not buffer it again; so the loop runs at most once
+// more than the source has records (measure: records left in the source, then the buffered flag).
+//@   loop 0 body_ensures[every-iteration-consumes-a-record] (nx_called && nx_r0 || head(i.buffered)) && !i.buffered
 //@   loop 0 invariant i.window != nil
 //@   requires i.window != nil
 //@   ensures[buffered-only-if-past-end] i.buffered ==> i.entry.Timestamp.AsTime().After(windowEnd)
